@@ -171,7 +171,13 @@ def scenarios(tier):
                 if mname in OVERLAP_MENUS and pname in OVERLAP_PROGS:
                     # the command lands inside a transaction of the engine
                     # that has only read so far (READ COMMITTED overlap)
-                    jobs.append((common.variant(scn, '/overlap', rp=True),
+                    # (one command per run: two operator commands racing
+                    # each other inside their transactions are not what the
+                    # statement is about)
+                    kw1 = dict(rp=True, max_cmds=1, sequences=None)
+                    if mname in ('pause_resume',):
+                        kw1 = dict(rp=True)
+                    jobs.append((common.variant(scn, '/overlap', **kw1),
                                  0 if quick else 1, 30 if quick else 900,
                                  1))
     return jobs
